@@ -73,6 +73,7 @@ class Contract:
         self.harness_post = None
         self.ghost_init = None
         self.captures = []    # (ghost name, local name, expr, ctype)
+        self.assert_attrs = {}
         self.markers = []     # (line, id)
         if not os.path.exists(path):
             return
@@ -121,6 +122,13 @@ class Contract:
                 elif kind == 'ghost-init':
                     cur = ('ghost-init', no + 1, [])
                     self.ghost_init = cur
+                elif kind == 'assert':
+                    # marker inside a harness-pre / harness-post section: names the assertions that follow
+                    parts = rest.split()
+                    self.markers.append((no, parts[0]))
+                    self.assert_attrs[parts[0]] = dict(p.split('=', 1) for p in parts[1:] if '=' in p)
+                    if cur is not None:
+                        cur[2].append('')
                 elif kind == 'end':
                     cur = None
                 else:
